@@ -1280,6 +1280,11 @@ func (o *oracles) checkStaleReads() {
 		for _, w := range o.history {
 			if w.write && w.known && w.key == r.key && w.outVer != 0 && w.ret < r.call && w.outVer > r.outVer {
 				s.ctx.Violate("C06", "stale-read", "read of key %d by client %d (invoked at %d) returned version %d, but write %d had been acknowledged with version %d at %d", r.key, r.client, r.call, r.outVer, w.wid, w.outVer, w.ret)
+				// the same fact is a linearizability violation (C01, which is stated
+				// for networks that do not duplicate messages)
+				if o.dupFired == 0 {
+					s.ctx.Violate("C01", "stale-read", "read of key %d by client %d (invoked at %d) returned version %d, but write %d had been acknowledged with version %d at %d", r.key, r.client, r.call, r.outVer, w.wid, w.outVer, w.ret)
+				}
 				return
 			}
 		}
